@@ -398,7 +398,20 @@ class C04(Check):
             sim.wait_until(lambda: False, max(0.0, last_send[0] - sim.now), poll=0.05)
             sim.wait_until(lambda: w.peer.sock is not None and w.peer.sock.inflight == 0, 5.0)
             # liveness: within D everything must have been handed over
-            sim.wait_until(lambda: len(w.delivered) >= len(expected), D, poll=D / 40.0)
+            # The bound D counts time in which the node is not busy decoding: a legal message of 150 tiny AVPs
+            # costs the receive worker hundreds of thousands of source lines (seconds of simulated CPU at a
+            # 5 us quantum).  How long decoding may take is C03's step bound, not a C04 matter; here the clock
+            # only runs while the receive worker is not runnable.
+            idle = [0.0, sim.now]
+
+            def waited_enough():
+                now = sim.now
+                busy = any(t.state == "runnable" and "recv_message_monitor" in t.role for t in w.lib_threads())
+                if not busy:
+                    idle[0] += now - idle[1]
+                idle[1] = now
+                return len(w.delivered) >= len(expected) or idle[0] >= D
+            sim.wait_until(waited_enough, scn.get("horizon", 120.0), poll=D / 40.0)
             # a little longer to catch duplicates / spurious deliveries
             sim.sleep(min(1.0, 20 * tick + 0.1))
 
